@@ -64,7 +64,7 @@ Record qcase := mkQC {
    +4 the model interpreter differs from the recording executor on the assembled program *)
 Definition check_qcase (pr : aparams) (bk : banks) (gi : list string) (t : list row) (c : qcase) : Z :=
   let P := match qc_lines c with Some ls => parse_text bk gi ls | None => Some (qc_prog c) end in
-  let a := if outcome_eqb (model_outcome pr t P) (qc_out c) then 0 else 1 in
+  let a := if outcome_eqb (model_outcome pr t [] P) (qc_out c) then 0 else 1 in
   let start := init_qstate (qc_cap c) (qc_script c) in
   match P, qc_obs c with
   | Some P, Some o =>
